@@ -63,6 +63,30 @@ PROPS["C03"] = dict(
           ["c03::c03_enc_item_explicit_le", "c03::c03_enc_item_explicit_be", "c03::c03_enc_item_implicit_le"],
           "encode_item_header / encode_item_delimiter / encode_sequence_delimiter: tag FFFE,E000/E00D/E0DD + 32-bit length",
           fns=_enc_fns("encode_item_header") + _enc_fns("encode_item_delimiter") + _enc_fns("encode_sequence_delimiter")),
+        K("C03.dec_header", "ext",
+          ["c03::c03_dec_header_explicit_le", "c03::c03_dec_header_explicit_be", "c03::c03_dec_header_implicit_le"],
+          "decode_header on any 12 (8) bytes: tag, VR, length and bytes_read are what the layout prescribes, the source "
+          "is advanced by exactly bytes_read, undefined VR codes are not recognised as a defined VR; implicit decoder "
+          "against a symbolic dictionary (contract only)",
+          fns=[(DEC + "explicit_le.rs", "decode_header", r"impl\s+Decode\s+for\s+ExplicitVRLittleEndianDecoder"),
+               (DEC + "explicit_be.rs", "decode_header", r"impl\s+Decode\s+for\s+ExplicitVRBigEndianDecoder"),
+               (DEC + "implicit_le.rs", "decode_header", r"impl<D>\s+Decode\s+for\s+ImplicitVRLittleEndianDecoder")]),
+        K("C03.dec_item", "ext",
+          ["c03::c03_dec_item_explicit_le", "c03::c03_dec_item_explicit_be", "c03::c03_dec_item_implicit_le",
+           "c03::c03_dec_item_adaptive_le"],
+          "decode_item_header on any 8 bytes: accepted iff FFFE,E000/E00D/E0DD (delimiters with zero length accepted), "
+          "length = 32-bit field, 8 bytes consumed",
+          fns=[(DEC + "explicit_le.rs", "decode_item_header", r"impl\s+Decode\s+for\s+ExplicitVRLittleEndianDecoder"),
+               (DEC + "explicit_be.rs", "decode_item_header", r"impl\s+Decode\s+for\s+ExplicitVRBigEndianDecoder"),
+               (DEC + "implicit_le.rs", "decode_item_header", r"impl<D>\s+Decode\s+for\s+ImplicitVRLittleEndianDecoder"),
+               (DEC + "adaptive_le.rs", "decode_item_header", r"impl<D>\s+Decode\s+for\s+AdaptiveVRLittleEndianDecoder"),
+               ("core/src/header.rs", "new", r"impl\s+SequenceItemHeader")]),
+        K("C03.roundtrip", "ext", ["c03::c03_roundtrip_explicit_le", "c03::c03_roundtrip_explicit_be"],
+          "decode_header(encode_element_header(h)) == (h, n) whenever encoding succeeds (tag group != FFFE)"),
+        K("C03.vr_codes", "ext", ["c03::c03_vr_codes", "c03::c03_vr_to_from_string"],
+          "VR::from_binary recognises exactly the 34 defined codes (all 65 536 codes), to_bytes/to_string/from_str are inverse",
+          fns=[("core/src/header.rs", "from_binary", r"impl\s+VR\b"), ("core/src/header.rs", "to_bytes", r"impl\s+VR\b"),
+               ("core/src/header.rs", "from_str", r"impl\s+FromStr\s+for\s+VR")]),
     ],
     assumptions=["sink is a 12-byte slice (std `impl Write for &mut [u8]`), i.e. the writer itself cannot fail; "
                  "failing writers are C34"],
